@@ -93,10 +93,10 @@ def lex_case(cid, scanner, text, build, ops):
     return '(lex-case %s (scanner %s) (text%s) (build%s) (ops%s))' % (
         cid, scanner, ''.join(' ' + s for s in text), ''.join(' ' + sx(b) for b in build), ''.join(' ' + sx(o) for o in ops))
 
-def parse_case(cid, text, g, le='lf', tab=4, scanner='plain', flt=('drop', 'Ws'), sink=1, pushed=(), fmt=0, runs=1):
-    return '(parse-case %s (le %s) (tab %d) (scanner %s) (filter %s) (sink %d) (pushed%s) (fmt %d) (runs %d) (text%s) (g %s))' % (
+def parse_case(cid, text, g, le='lf', tab=4, scanner='plain', flt=('drop', 'Ws'), sink=1, pushed=(), fmt=0, runs=1, order='mf'):
+    return '(parse-case %s (le %s) (tab %d) (scanner %s) (filter %s) (sink %d) (pushed%s) (fmt %d) (runs %d)%s (text%s) (g %s))' % (
         cid, le, tab, scanner, sx(flt), sink, ''.join(' %d' % t for t in pushed), fmt, runs,
-        ''.join(' ' + s for s in text), sx(g))
+        ' (order fm)' if order == 'fm' else '', ''.join(' ' + s for s in text), sx(g))
 
 # ---------------------------------------------------------------------------------------------
 # grammar generators
